@@ -51,10 +51,14 @@ fn main()
         {
             let n : usize = arg(&args, "--n", "20").parse().unwrap();
             let seed : u64 = arg(&args, "--seed", "1").parse().unwrap();
-            let pr = drv_random::profile(&arg(&args, "--profile", "core"));
+            let prname = arg(&args, "--profile", "core");
+            let pr = drv_random::profile(&prname);
             let out = arg(&args, "--out", "trace.ndjson");
             let mut lines : Vec<Value> = vec![];
-            for k in 0..n { lines.extend(drv_random::random_scenario(format!("r{}.{}", seed, k), seed.wrapping_mul(1000003).wrapping_add(k as u64), &pr)); }
+            /* --scenario-seed: regenerate exactly one scenario from the seed recorded in its reset event (replay) */
+            let one = arg(&args, "--scenario-seed", "");
+            if one != "" { lines.extend(drv_random::random_scenario(arg(&args, "--id", "replay"), one.parse().unwrap(), &pr, &prname)); }
+            else { for k in 0..n { lines.extend(drv_random::random_scenario(format!("r{}.{}", seed, k), seed.wrapping_mul(1000003).wrapping_add(k as u64), &pr, &prname)); } }
             run::write_lines(&out, &lines);
             println!("{}", serde_json::json!({"scenarios" : n, "events" : lines.len(), "counts" : run::counts(&lines)}));
         },
